@@ -45,8 +45,8 @@ ASSUMPTIONS = [
     "the app-level dir django_components/components (INSTALLED_APPS of the harness) is a component dir like any other",
 ]
 BOUNDS = {
-    "quick": {"cases": 6400, "max_files": 16, "shards": 32},
-    "thorough": {"cases": 96000, "max_files": 24, "shards": 48},
+    "quick": {"cases": 3200, "max_files": 16, "shards": 32},
+    "thorough": {"cases": 48000, "max_files": 24, "shards": 48},
 }
 
 # Documented defaults (docs/reference/settings.md, `static_files_allowed` / `static_files_forbidden`) — copied here on
